@@ -16,6 +16,11 @@
    of the case that declares a function called f and has an expr).
      E e <name> <member>:<value> ...
      O e <name>
+   Items with a SPELLED type (every line is turned into a surface item of Front.v and goes through the extracted
+   front-end model Front.parse_fs, the old forms with the spelling `int`):
+     PV e <default 0|1> <static 0|1> <const 0|1> <spell> <name>[=<expr>][,<name>[=<expr>]...]
+     PF e <default 0|1> <async 0|1> <retspell> <name> <body> <tparam,..|-> <paramspell,..|-> [<expr>]
+   spell (no blanks): [u.]<keyword | Name[<arg;arg>]>{*}[&]{[n] | []}, e.g. long  u.int  Ms  Bx<int>  int*  Ms[2]  int[3]
    Output per case: "R ok" or "R err open <p> <fp>" / "R err conflict <m> <s>" / "R err undefvar <x>" /
    "R err undeffunc <f>" / "R err undefenum <e> <m>", then (if ok) the current bindings of every table,
    one per line ("V name const value": the value the initialiser evaluated to; "A name accepted|rejected":
@@ -68,30 +73,81 @@ and parse_term depth (s : string) : expr =
 
 let expr_depth = 6
 
-let parse_stmt (ws : string list) : stmt =
+let basic_of = function
+  | "int" -> Some BInt | "long" -> Some BLong | "short" -> Some BShort | "tiny" -> Some BTiny | "void" -> Some BVoid
+  | "bool" -> Some BBool | "string" -> Some BString | "char" -> Some BChar | "float" -> Some BFloat
+  | "double" -> Some BDouble | "big" -> Some BBig | "quad" -> Some BQuad | _ -> None
+
+(* [u.]head[<a;b>]{*}[&]{[n]|[]} *)
+let parse_spell (s0 : string) : spell =
+  let uns, s = if String.length s0 > 2 && String.sub s0 0 2 = "u." then (true, String.sub s0 2 (String.length s0 - 2)) else (false, s0) in
+  let n = String.length s in
+  let i = ref 0 in
+  while !i < n && not (List.mem s.[!i] ['<'; '*'; '&'; '[']) do incr i done;
+  let hd = String.sub s 0 !i in
+  let targs = ref [] in
+  if !i < n && s.[!i] = '<' then begin
+    let j = String.index_from s !i '>' in
+    targs := String.split_on_char ';' (String.sub s (!i + 1) (j - !i - 1));
+    i := j + 1
+  end;
+  let ptr = ref 0 in
+  while !i < n && s.[!i] = '*' do incr ptr; incr i done;
+  let rf = (!i < n && s.[!i] = '&') in
+  if rf then incr i;
+  let dims = ref [] in
+  while !i < n && s.[!i] = '[' do
+    let j = String.index_from s !i ']' in
+    let d = String.sub s (!i + 1) (j - !i - 1) in
+    dims := !dims @ [if d = "" then None else Some (nat_of_int (int_of_string d))];
+    i := j + 1
+  done;
+  if !i <> n then failwith ("bad type spelling: " ^ s0);
+  let head = match uns, basic_of hd with
+    | true, Some b -> HUnsigned b
+    | true, None -> failwith ("bad type spelling: " ^ s0)
+    | false, Some b when !targs = [] -> HBasic b
+    | false, _ -> HName (explode hd, List.map explode !targs) in
+  { sp_head = head; sp_ptr = nat_of_int !ptr; sp_ref = rf; sp_dims = !dims }
+
+let int_spell = { sp_head = HBasic BInt; sp_ptr = O; sp_ref = false; sp_dims = [] }
+
+let parse_declarator (s : string) : declarator =
+  let (n, i) = split2 '=' s in
+  { d_name = explode n; d_dims = []; d_init = (if i = "" then None else Some (parse_expr expr_depth i)) }
+
+let parse_witem (ws : string list) : witem =
+  let w e df it = { w_export = e; w_default = df; w_item = it } in
   match ws with
-  | ["I"; p] -> SImport (explode p)
+  | ["I"; p] -> w false false (IImport (explode p))
+  | "PV" :: e :: df :: st :: c :: sp :: [decls] ->
+    (match List.map parse_declarator (String.split_on_char ',' decls) with
+     | d :: more -> w (e = "1") (df = "1") (IVar (st = "1", c = "1", parse_spell sp, d, more))
+     | [] -> failwith "PV without declarator")
+  | "PF" :: e :: df :: asy :: rs :: n :: b :: tps :: pss :: _ ->
+    w (e = "1") (df = "1") (IFunc (asy = "1", false, parse_spell rs, explode n, List.map explode (commas tps),
+                                    List.map parse_spell (commas pss), nat_of_int (int_of_string b)))
   | k :: e :: rest ->
     let ex = (e = "1") in
-    let d = match k, rest with
-      | "F", [n; b] -> DFunc (explode n, nat_of_int (int_of_string b))
-      | "F", [n; b; _] -> DFunc (explode n, nat_of_int (int_of_string b))
+    let it = match k, rest with
+      | "F", [n; b] | "F", [n; b; _] -> IFunc (false, false, int_spell, explode n, [], [int_spell], nat_of_int (int_of_string b))
       | "S", n :: g :: mems ->
-        DStruct (explode n, { sd_generic = (g = "1");
-                             sd_members = List.map (fun m -> let (a, x) = split2 ':' m in
-                                                     { mem_name = explode a; mem_array = opt_nat x }) mems })
-      | "N", n :: ms -> DInterface (explode n, List.map explode ms)
+        IStruct (explode n, { sd_generic = (g = "1");
+                              sd_members = List.map (fun m -> let (a, x) = split2 ':' m in
+                                                      { mem_name = explode a; mem_array = opt_nat x }) mems })
+      | "N", n :: ms -> IInterface (explode n, List.map explode ms)
       | "M", [i; s; ms; cs; dt; st] ->
-        DImpl { im_iface = (if i = "-" then [] else explode i); im_struct = explode s;
+        IImpl { im_iface = (if i = "-" then [] else explode i); im_struct = explode s;
                 im_methods = List.map (fun m -> let (a, b) = split2 ':' m in (explode a, nat_of_int (int_of_string b))) (commas ms);
                 im_ctors = List.map (fun c -> let (a, b) = split2 ':' c in (nat_of_int (int_of_string a), nat_of_int (int_of_string b))) (commas cs);
                 im_dtor = opt_nat dt; im_statics = List.map explode (commas st) }
-      | "T", [n; t] -> DTypedef (explode n, explode t)
-      | "V", [n; c; i] -> DVar (explode n, c = "1", (if i = "-" then None else Some (parse_expr expr_depth i)))
-      | "E", n :: ms -> DEnum (explode n, List.map (fun m -> let (a, v) = split2 ':' m in (explode a, nat_of_int (int_of_string v))) ms)
-      | "O", [n] -> DOther (explode n)
+      | "T", [n; t] -> ITypedef (explode n, explode t)
+      | "V", [n; c; i] -> IVar (false, c = "1", int_spell,
+                                { d_name = explode n; d_dims = []; d_init = (if i = "-" then None else Some (parse_expr expr_depth i)) }, [])
+      | "E", n :: ms -> IEnum (explode n, List.map (fun m -> let (a, v) = split2 ':' m in (explode a, nat_of_int (int_of_string v))) ms)
+      | "O", [n] -> IVar (false, false, { int_spell with sp_dims = [Some (S (S (S O)))] }, { d_name = explode n; d_dims = []; d_init = None }, [])
       | _ -> failwith ("bad statement: " ^ String.concat " " ws) in
-    SDecl (ex, d)
+    w ex false it
   | _ -> failwith ("bad statement: " ^ String.concat " " ws)
 
 let uniq_keys m = List.fold_left (fun acc (k, _) -> if List.mem k acc then acc else acc @ [k]) [] m
@@ -162,8 +218,9 @@ let () =
         flush_file ();
         (* recursion bound: every nesting level marks a new module path, and every path stems from an
            import statement (of the program or of a file) *)
-        let pfiles = List.map (fun (n, m) -> (explode n, List.map parse_stmt m)) !files in
-        let pmain = List.map parse_stmt !main in
+        let sfiles = List.map (fun (n, m) -> (explode n, List.map parse_witem m)) !files in
+        let pfiles = parse_fs sfiles in
+        let pmain = parse_file sfiles (List.map parse_witem !main) in
         let nimp l = List.length (List.filter (function SImport _ -> true | _ -> false) l) in
         let n = List.fold_left (fun acc (_, m) -> acc + nimp m) (nimp pmain) pfiles in
         let fuel = nat_of_int (n + 2) and pf = nat_of_int (List.length pfiles + 1) in
@@ -181,6 +238,7 @@ let () =
       | ws ->
         (match ws with
          | ["F"; _; n; b; ex] -> bodies := !bodies @ [(n, int_of_string b, ex)]
+         | ["PF"; _; _; _; _; n; b; _; _; ex] -> bodies := !bodies @ [(n, int_of_string b, ex)]
          | _ -> ());
         cur := ws :: !cur
     done with End_of_file -> ())
